@@ -76,3 +76,47 @@ void h_next(void){
   }
   __CPROVER_assert(0, "VACUITY-CANARY");
 }
+
+//@ text2
+/* ghost: find() is under its own contract (candman.find); here it returns any slot or num_candidates (not a candidate any more) */
+size_t g_found[TSG_NC]; size_t g_nfind, g_nerased;
+size_t CandidateManager_find(const CandidateManager *self, const double *point){
+  size_t r = nondet_size_t(); __CPROVER_assume(r <= self->num_candidates);
+  if (g_nfind < TSG_NC) g_found[g_nfind] = r;
+  g_nfind++;
+  return r;
+}
+void fl_erase_match(CandidateManager *self, const double *point){
+  __CPROVER_assert(self->running_jobs_count > 0, "F16c a completed point is in the running-job list");
+  self->running_jobs_count--; g_nerased++;
+}
+//@ harness h_complete
+/* F16c complete(p) with k = |p| / num_dimensions points that were handed out before: num_done grows by k, num_running and the running-job list shrink by k
+ * (whether or not a point is still a candidate); exactly the candidates that were found are marked done. */
+void h_complete(void){
+  CandidateManager m;
+  m.num_dimensions = nondet_size_t(); m.num_batch = nondet_size_t(); m.num_candidates = nondet_size_t();
+  __CPROVER_assume(m.num_dimensions >= 1 && m.num_dimensions <= TSG_NDIM && m.num_batch >= 1 && m.num_candidates <= TSG_NC);
+  size_t a_k = nondet_size_t();
+  __CPROVER_assume(a_k >= 1 && a_k <= TSG_NC);
+  m.num_running = nondet_size_t(); m.num_done = nondet_size_t(); m.running_jobs_count = nondet_size_t();
+  __CPROVER_assume(m.num_running >= a_k && m.num_running < 1000 && m.running_jobs_count == m.num_running && m.num_done < 1000);      /* class invariant: one list entry per running job */
+  TypeStatus old_status[TSG_NC];
+  for (size_t i = 0; i < TSG_NC; i++) { int s = nondet_int(); __CPROVER_assume(s >= st_free && s <= st_done); m.status[i] = (TypeStatus) s; old_status[i] = m.status[i];
+    m.sorted[i] = nondet_size_t(); __CPROVER_assume(m.sorted[i] < TSG_NC); }
+  double p[TSG_RCAP];
+  size_t run0 = m.num_running, done0 = m.num_done;
+  g_nfind = 0; g_nerased = 0;
+  CandidateManager_complete(&m, p, a_k * m.num_dimensions);
+  __CPROVER_assert(m.num_done == done0 + a_k, "F16c num_done grows by the number of completed points");
+  __CPROVER_assert(m.num_running == run0 - a_k, "F16c num_running shrinks by the number of completed points, also for a point that is no longer a candidate (the construction loop waits for getNumRunning() == 0)");
+  __CPROVER_assert(m.running_jobs_count == m.num_running && g_nerased == a_k, "F16c one running job is erased per completed point (invariant: one list entry per running job)");
+  __CPROVER_assert(g_nfind == a_k, "F16c every completed point is looked up once");
+  for (size_t i = 0; i < TSG_NC; i++) {
+    bool hit = false;
+    for (size_t q = 0; q < TSG_NC; q++) if (q < a_k && g_found[q] < m.num_candidates && m.sorted[g_found[q]] == i) hit = true;
+    if (hit) __CPROVER_assert(m.status[i] == st_done, "F16c a completed point that is still a candidate is marked done");
+    else __CPROVER_assert(m.status[i] == old_status[i], "F16c no other candidate changes its status");
+  }
+  __CPROVER_assert(0, "VACUITY-CANARY");
+}
